@@ -104,7 +104,62 @@ def table_writers(chk, repo):
            if bad else f"writers: {sorted(n for _, n in writers)}")
 
 
+def register_writers(chk, repo):
+    """R20.9: who may write the FMMU registers of a terminal (0x600-0x6ff):
+    initialize() switches all of them off before anything is mapped,
+    map_fmmu() programs and switches off the slot it has claimed.  A third
+    writer - a clean-up that "switches everything off" - turns off the
+    FMMUs of live mappings of other sync groups."""
+    chk.doc("R20.9", "FMMU registers are written by initialize() and by "
+                     "the owner of a slot only")
+    allowed = {"ebpfcat.ethercat.Terminal.initialize",
+               "ebpfcat.ethercat.Terminal.map_fmmu"}
+    n = 0
+    bad = []
+    for m in repo.production_modules():
+        if ".examples" in m.name or m.name.endswith("scripts"):
+            continue
+        for c in ast.walk(m.tree):
+            if not (isinstance(c, ast.Call) and isinstance(
+                    c.func, ast.Attribute)):
+                continue
+            if c.func.attr == "write" and c.args:
+                addr = c.args[0]
+            elif c.func.attr == "roundtrip" and len(c.args) >= 3 and \
+                    unparse(c.args[0]).split(".")[-1] in (
+                        "FPWR", "APWR", "BWR", "FPRW", "APRW"):
+                addr = c.args[2]
+            else:
+                continue
+            consts = [x.value for x in ast.walk(addr) if isinstance(
+                x, ast.Constant) and isinstance(x.value, int)
+                and not isinstance(x.value, bool)]
+            if not any(0x600 <= v < 0x700 for v in consts):
+                continue
+            n += 1
+            q = func_qual(repo, c)
+            # a helper that only the allowed functions call is theirs
+            if q not in allowed:
+                name = q.split(".")[-1]
+                callers = {func_qual(repo, x) for m2 in
+                           repo.production_modules() for x in ast.walk(
+                               m2.tree) if isinstance(x, ast.Call)
+                           and isinstance(x.func, ast.Attribute)
+                           and x.func.attr == name
+                           and func_qual(repo, x) != q}
+                if not callers or not callers <= allowed:
+                    bad.append((c, q))
+    chk.floor("R20.9", "writes of FMMU registers", n, 3)
+    chk.ob("R20.9", "ebpfcat.ethercat.Terminal", "no third writer of the "
+           "FMMU registers", not bad, bad[0][0] if bad else None,
+           (f"{bad[0][1]} writes `{unparse(bad[0][0])[:60]}`: FMMUs of "
+            f"slots it has not claimed are programmed or switched off "
+            f"while another sync group's mapping is live") if bad else
+           f"{n} writes, all in initialize() / map_fmmu()")
+
+
 def run(chk, repo):
+    register_writers(chk, repo)
     chk.doc("R20.6", "the claim discipline of map_fmmu is the only one")
     override_rule(chk, repo, "R20.6", "ebpfcat.ethercat.Terminal",
                   ["map_fmmu"], "the search for a free slot, the claim "
